@@ -48,6 +48,8 @@ static void build_particle_space(const std::string& tier, const std::string& fam
     const std::vector<Occ> FULL = occs({0, 1, 2, 3, 4, 5, 6, 7});
     const std::vector<Occ> CORE = occs({1, 0, 2, 5});        // (1,1) (0,1) (0,inf) (2,3)
     const std::vector<Occ> MINI = occs({1, 0});              // (1,1) (0,1)
+    const std::vector<Occ> REP3 = occs({1, 2, 5});           // (1,1) (0,inf) (2,3)
+    const std::vector<Occ> LEAF3 = occs({1, 0, 5});          // (1,1) (0,1) (2,3)
     const std::vector<Occ> ONE = occs({1});
     const Kind COMP[2] = {SEQ, CHOICE};
     std::vector<TermT> allTerms = {{ELEM, 0}};
@@ -60,7 +62,8 @@ static void build_particle_space(const std::string& tier, const std::string& fam
     // P1n: group{o1}( group{o2}( leaf{o3} ) ): nested repetition of a single leaf
     if (fam("p1n")) {
         const std::vector<Occ>& O = T ? FULL : CORE;
-        std::vector<TermT> ts = {{ELEM, 0}, {WILD, W_OTHER * 3 + PC_LAX}};
+        std::vector<TermT> ts = {{ELEM, 0}};
+        if (T) ts.push_back({WILD, W_OTHER * 3 + PC_LAX});
         for (Kind c : COMP) for (Kind c2 : COMP) for (Occ o1 : O) for (Occ o2 : O) for (TermT t : ts) for (Occ o3 : O)
             PSPACE.push_back(Particle::group(c, o1, {Particle::group(c2, o2, {leafp(t, o3)})}));
     }
@@ -69,15 +72,16 @@ static void build_particle_space(const std::string& tier, const std::string& fam
         std::vector<std::pair<TermT, TermT>> pairs = {
             {{ELEM, 0}, {ELEM, 1}}, {{ELEM, 0}, {ELEM, 0}},
             {{ELEM, 0}, {WILD, W_OTHER * 3 + PC_STRICT}}, {{WILD, W_OTHER * 3 + PC_LAX}, {ELEM, 0}},
-            {{ELEM, 0}, {WILD, W_ANY * 3 + PC_LAX}}, {{WILD, W_TNS * 3 + PC_SKIP}, {WILD, W_OTHER * 3 + PC_SKIP}}};
+            {{ELEM, 0}, {WILD, W_ANY * 3 + PC_LAX}}};
         if (T) {
+            pairs.push_back({{WILD, W_TNS * 3 + PC_SKIP}, {WILD, W_OTHER * 3 + PC_SKIP}});
             pairs.push_back({{WILD, W_ANY * 3 + PC_SKIP}, {ELEM, 0}});
             pairs.push_back({{ELEM, 0}, {WILD, W_TNS * 3 + PC_STRICT}});
             pairs.push_back({{WILD, W_TNS * 3 + PC_LAX}, {ELEM, 0}});
             pairs.push_back({{WILD, W_OTHER * 3 + PC_STRICT}, {WILD, W_TNS * 3 + PC_LAX}});
             pairs.push_back({{WILD, W_OTHER * 3 + PC_LAX}, {WILD, W_OTHER * 3 + PC_STRICT}});
         }
-        const std::vector<Occ>& OG = T ? FULL : CORE;
+        const std::vector<Occ>& OG = T ? FULL : REP3;
         const std::vector<Occ>& OL = FULL;
         for (Kind c : COMP) for (Occ o1 : OG) for (auto& pr : pairs) for (Occ o2 : OL) for (Occ o3 : OL)
             PSPACE.push_back(Particle::group(c, o1, {leafp(pr.first, o2), leafp(pr.second, o3)}));
@@ -85,9 +89,9 @@ static void build_particle_space(const std::string& tier, const std::string& fam
     // P2n: nested two-leaf shapes: g{o1}( g'{o2}(l1 l2) ), g{o1}( g'{o2}(l1) l2 ), g{o1}( l1 g'{o2}(l2) )
     if (fam("p2n")) {
         std::vector<std::pair<TermT, TermT>> pairs = {{{ELEM, 0}, {ELEM, 1}}, {{ELEM, 0}, {WILD, W_OTHER * 3 + PC_LAX}}};
-        if (T) { pairs.push_back({{ELEM, 0}, {ELEM, 0}}); pairs.push_back({{WILD, W_OTHER * 3 + PC_STRICT}, {ELEM, 0}}); }
-        const std::vector<Occ>& OG = T ? FULL : CORE;
-        const std::vector<Occ>& OL = T ? CORE : MINI;
+        if (T) pairs.push_back({{ELEM, 0}, {ELEM, 0}});
+        const std::vector<Occ>& OG = T ? FULL : REP3;
+        const std::vector<Occ>& OL = T ? LEAF3 : MINI;
         for (Kind c : COMP) for (Kind c2 : COMP) for (Occ o1 : OG) for (Occ o2 : OG) for (auto& pr : pairs) for (Occ o3 : OL) for (Occ o4 : OL) {
             PSPACE.push_back(Particle::group(c, o1, {Particle::group(c2, o2, {leafp(pr.first, o3), leafp(pr.second, o4)})}));
             PSPACE.push_back(Particle::group(c, o1, {Particle::group(c2, o2, {leafp(pr.first, o3)}), leafp(pr.second, o4)}));
@@ -299,6 +303,26 @@ static void compute_expect(const Particle& top, Expect& ex) {
     while (ex.words.size() > g_wordcap && len > g_full) generate(top, L, root, --len, ex);
 }
 
+// Known defect C08-D1 (see docs/c08.md): without full checking DFAContentModel::buildDFA merges leaves that carry the same element name
+// (or the same wildcard) into one element-map entry and keeps one occurrence counter per entry, so two particles with the same name of
+// which at least one needs a counter share / lose their bounds.  Predicate: counter-type occurrence somewhere + the same leaf term twice.
+// (the list KNOWN_DEFECTS with all diagnosed defects lives in c08_spaces.hpp; D1 is entry 0)
+extern const char* const KNOWN_DEFECTS[];
+extern bool g_skip_known;
+static bool has_counter_occ(const Particle& p) {
+    bool simple = (p.occ.max == 1 && p.occ.min <= 1) || (p.occ.max == UNB && p.occ.min <= 1);
+    if (!simple) return true;
+    for (auto& k : p.kids) if (has_counter_occ(k)) return true;
+    return false;
+}
+static bool d1_predicate(const Particle& top, bool fullChecking) {
+    if (fullChecking || top.kind == ALL || !has_counter_occ(top)) return false;
+    std::vector<LeafInfo> L;
+    collect_leaves(top, L);
+    for (size_t i = 0; i < L.size(); i++) for (size_t j = i + 1; j < L.size(); j++) if (L[i].kind == L[j].kind && L[i].term == L[j].term) return true;
+    return false;
+}
+
 struct Cfg8 { int scanner, api; bool full; bool deep; };
 static std::vector<Cfg8> g_cfgs;
 static unsigned g_cfgmask = 0xff;
@@ -338,7 +362,9 @@ static void run_particle(uint64_t idx, Ctx& c) {
         Config cfg; cfg.api = k.api; cfg.scanner = k.scanner; cfg.ns = true; cfg.schema = true; cfg.val = 1; cfg.fullcheck = k.full;
         g_vfs->clear();
         g_vfs->put("/v/s.xsd", xsd);
-        bool deep = k.deep || allDeep;
+        // big schemas: two of the eight configurations see every word; the pair rotates with the case index and always contains both
+        // scanners, both APIs and both full-checking values (pairs: {0,7} {1,6} {2,5} {3,4} in the order of g_cfgs)
+        bool deep = allDeep || ci == (idx % 4) || ci == 7 - (idx % 4);
         const std::string& doc = deep ? docDeep : docShallow;
         size_t nwords = deep ? ex.words.size() : ex.shallow;
         Parsed P = parse8(cfg, doc, false, false);
@@ -382,8 +408,12 @@ static void run_particle(uint64_t idx, Ctx& c) {
         c.count("instance_verdicts_compared", nwords);
         for (size_t w = 0; w < nwords; w++) {
             if ((bool)got[w] == (bool)ex.invalid[w]) continue;
-            c.violation(ex.invalid[w] ? "invalid-instance-accepted" : "valid-instance-rejected",
-                        desc + "," + cs + ",\"word\":" + jstr(word_str(ex.words[w])) + ",\"instance\":" + jstr(word_line(ex.words[w])) + ",\"schema\":" + jstr(xsd));
+            std::string fields = desc + "," + cs + ",\"word\":" + jstr(word_str(ex.words[w])) + ",\"instance\":" + jstr(word_line(ex.words[w])) + ",\"schema\":" + jstr(xsd);
+            if (d1_predicate(top, k.full)) {
+                if (g_skip_known) { c.count(std::string("known_defect:") + KNOWN_DEFECTS[0]); break; }
+                fields += std::string(",\"defect\":") + jstr(KNOWN_DEFECTS[0]);
+            }
+            c.violation(ex.invalid[w] ? "invalid-instance-accepted" : "valid-instance-rejected", fields);
             if (c.verbose) {
                 printf("config %s word '%s' expected %s observed %s\n", cfg.str().c_str(), word_str(ex.words[w]).c_str(), ex.invalid[w] ? "invalid" : "valid", got[w] ? "invalid" : "valid");
                 for (auto& e : P.r.errors) if (split_err(e).line == (long)w + 2) printf("   %s\n", e.c_str());
@@ -412,6 +442,7 @@ int main(int argc, char** argv) {
         g_wordcap = (size_t)a.num("wordcap", 6000);
         g_alldeep_max = (size_t)a.num("alldeepmax", 800);
         g_cfgmask = (unsigned)a.num("cfgs", 0xff);
+        g_skip_known = a.str("known", "report") == "skip";
         build_particle_space(tier, a.str("family", "all"));
         // schemas with many words: all words on IG/SAX2/full and SG/DOM/nofull, the other six configurations on the words of length <= shallow
         for (int sc : {IG, SG}) for (int api : {SAX2, DOM}) for (int full = 1; full >= 0; full--)
